@@ -10,6 +10,7 @@ From RecordUpdate Require Import RecordSet.
 From TV Require Import Py.Prelude Model.Schema.
 Import ListNotations RecordSetNotations.
 Open Scope string_scope.
+Open Scope list_scope.
 
 (* ---------- schema as the validators see it (after bake) ---------- *)
 Record dirdef := { dd_name : string; dd_args : list input_def; dd_locs : list string }.
@@ -257,13 +258,11 @@ Fixpoint walk_value (path : opath) (v : lit) (st : vctx) {struct v} : vctx :=
 Definition has_value_attr (v : lit) : bool :=
   match v with LList _ _ | LObj _ _ | LVar _ _ | LNull _ => false | _ => true end.
 
-(* `value_node.value not in [x.value for x in enum.values]` *)
+(* `not isinstance(value_node, EnumValueNode) or value_node.value not in [x.value for x in enum.values]` *)
 Definition enum_value_known (v : lit) (values : list string) : option bool :=
   match v with
-  | LEnum _ s | LStr _ s => Some (mem_str s values)
-  | LInt _ (PStr s) | LFloat _ (PStr s) => Some (mem_str s values)
-  | LInt _ _ | LFloat _ _ | LBool _ _ => Some false
-  | _ => None                              (* no .value attribute: AttributeError *)
+  | LEnum _ s => Some (mem_str s values)
+  | _ => Some false
   end.
 
 Definition VT := "values-of-correct-type".
@@ -438,7 +437,7 @@ Definition field_rules (path : opath) (l : loc) (name : string) (args : list arg
   let parent := parent_type st in
   let st := emit_ok (valid_locations_errors path "FIELD" l dirs) st in
   let rt := field_reduced_type parent name in
-  let st := emit_ok (if prefix "__" name then [] else
+  let st := emit_ok (if String.eqb name "__typename" then [] else
                      match rt with None => [mkerr "field-selections-on-objects-interfaces-and-unions-types" path [l]]
                                  | Some _ => [] end) st in
   let st := emit_ok (match rt with
@@ -458,7 +457,7 @@ Fixpoint walk_selection (path : opath) (s : selection) (st : vctx) {struct s} : 
       let path' := path_push path name in
       let saved := parent_type st in
       let st := st <| parent_type := field_type_name saved name |> <| in_directive := false |>
-                   <| cur_field := show_opt saved ++ "." ++ name |> in
+                   <| cur_field := (show_opt saved ++ "." ++ name)%string |> in
       let st := walk_arguments path' args st in
       let st := walk_directives path' dirs st in
       let st := (fix go (xs : list selection) (st : vctx) : vctx :=
@@ -486,7 +485,7 @@ Fixpoint walk_selection (path : opath) (s : selection) (st : vctx) {struct s} : 
                                      | Some d => if is_composite_def d then [] else [mkerr "fragments-on-composite-types" path [l]]
                                      | None => [] end
                          | None => [] end) st in
-      let st := st <| inlined_in ::= upd_assoc opt_str_eqb (parent_type st) [] (fun x => x ++ [(tc, l)]) |> in
+      let st := st <| inlined_in ::= upd_assoc opt_str_eqb saved [] (fun x => x ++ [(tc, l)]) |> in
       st <| parent_type := saved |>
   end.
 
@@ -555,6 +554,23 @@ Definition spreads_of (sels : list selection) : list string := flat_map spreads_
 (* FragmentSpreadsMustNotFormCycles._validate_fragment: DFS with the current spread path and the
    set of fragments already checked.  inl checked' | inr tt = CycleException.  Fuel is spent per
    fragment entered; None = out of fuel (not reachable with fuel > number of fragments). *)
+Fixpoint cyc_each (rec : fragment -> list string -> option (list string + unit)) (frs : list fragment)
+         (path' : list string) (self : string) (names : list string) (checked : list string)
+  : option (list string + unit) :=
+  match names with
+  | [] => Some (inl (self :: checked))
+  | n :: r =>
+      if mem_str n path' then Some (inr tt) else
+      match find_fragment frs n with
+      | None => cyc_each rec frs path' self r checked
+      | Some f =>
+          match rec f checked with
+          | Some (inl checked') => cyc_each rec frs path' self r checked'
+          | other => other
+          end
+      end
+  end.
+
 Fixpoint cyc_fragment (fuel : nat) (frs : list fragment) (fr : fragment) (path : list string)
          (checked : list string) {struct fuel} : option (list string + unit) :=
   match fuel with
@@ -562,20 +578,8 @@ Fixpoint cyc_fragment (fuel : nat) (frs : list fragment) (fr : fragment) (path :
   | S fuel' =>
       if mem_str (fr_name fr) checked then Some (inl checked) else
       let path' := path ++ [fr_name fr] in
-      (fix each (names : list string) (checked : list string) : option (list string + unit) :=
-         match names with
-         | [] => Some (inl (fr_name fr :: checked))
-         | n :: r =>
-             if mem_str n path' then Some (inr tt) else
-             match find_fragment frs n with
-             | None => each r checked
-             | Some f =>
-                 match cyc_fragment fuel' frs f path' checked with
-                 | Some (inl checked') => each r checked'
-                 | other => other
-                 end
-             end
-         end) (spreads_of (fr_sels fr)) checked
+      cyc_each (fun f c => cyc_fragment fuel' frs f path' c) frs path' (fr_name fr)
+               (spreads_of (fr_sels fr)) checked
   end.
 
 Fixpoint cyc_all (fuel : nat) (frs todo : list fragment) (checked : list string) : option bool :=
@@ -608,29 +612,80 @@ Definition lone_anonymous_errors (ops : list operation) : list verror :=
     end
   else [].
 
-(* SingleRootField: only the FIRST subscription operation is looked at *)
-Fixpoint single_root_sels (fuel : nat) (frs : list fragment) (oloc : loc) (sels : list selection) : option (list verror) :=
+(* SingleRootField._collect_response_keys: response keys of the root selection set, through inline
+   fragments and (each at most once) named fragments; every subscription operation is checked *)
+Fixpoint sels_depth (s : selection) : nat :=
+  match s with
+  | SField _ _ _ _ _ _ | SSpread _ _ _ => 1%nat
+  | SInline _ _ _ sub => S ((fix go (xs : list selection) : nat :=
+                               match xs with [] => O | x :: r => Nat.max (sels_depth x) (go r) end) sub)
+  end.
+Definition sels_depth_l (sels : list selection) : nat := fold_left (fun a s => Nat.max a (sels_depth s)) sels O.
+
+Fixpoint response_keys (fuel : nat) (frs : list fragment) (sels : list selection)
+         (visited keys : list string) {struct fuel} : option (list string * list string) :=
+  match fuel with
+  | O => None
+  | S fuel' =>
+      (fix go (xs : list selection) (visited keys : list string) : option (list string * list string) :=
+         match xs with
+         | [] => Some (visited, keys)
+         | SSpread _ n _ :: r =>
+             if mem_str n visited then go r visited keys else
+             match find_fragment frs n with
+             | None => go r (n :: visited) keys
+             | Some f => match response_keys fuel' frs (fr_sels f) (n :: visited) keys with
+                         | Some (v', k') => go r v' k'
+                         | None => None
+                         end
+             end
+         | SInline _ _ _ sub :: r =>
+             match response_keys fuel' frs sub visited keys with
+             | Some (v', k') => go r v' k'
+             | None => None
+             end
+         | SField _ alias name _ _ _ :: r =>
+             let k := match alias with Some a => a | None => name end in
+             go r visited (if mem_str k keys then keys else k :: keys)
+         end) sels visited keys
+  end.
+
+Definition single_root_fuel (doc : document) : nat :=
+  (S (S (List.length (fragments doc))) +
+   fold_left (fun a f => a + sels_depth_l (fr_sels f)) (fragments doc) O +
+   fold_left (fun a o => a + sels_depth_l (o_sels o)) (operations doc) O)%nat.
+
+Fixpoint single_root_sels (fuel : nat) (doc : document) (oloc : loc) (sels : list selection) : option (list verror) :=
   match fuel with
   | O => None
   | S fuel' =>
       match sels with
       | [] => Some []
       | [SSpread _ n _] =>
-          match find_fragment frs n with
+          match find_fragment (fragments doc) n with
           | None => Some []
-          | Some f => single_root_sels fuel' frs oloc (fr_sels f)
+          | Some f => single_root_sels fuel' doc oloc (fr_sels f)
           end
-      | [SInline _ _ _ sub] => single_root_sels fuel' frs oloc sub
+      | [SInline _ _ _ sub] => single_root_sels fuel' doc oloc sub
       | [_] => Some []
-      | _ => Some [mkerr "single-root-field" None [oloc]]
+      | _ =>
+          match response_keys (single_root_fuel doc) (fragments doc) sels [] [] with
+          | Some (_, keys) => Some (if (1 <? List.length keys)%nat then [mkerr "single-root-field" None [oloc]] else [])
+          | None => None
+          end
       end
   end.
 
 Definition single_root_rule (doc : document) : option (list verror) :=
-  match find (fun o => match o_kind o with OpSubscription => true | _ => false end) (operations doc) with
-  | None => Some []
-  | Some o => single_root_sels (S (S (List.length (fragments doc))) * 4) (fragments doc) (o_loc o) (o_sels o)
-  end.
+  fold_left (fun acc o =>
+    match acc, o_kind o with
+    | Some es, OpSubscription =>
+        match single_root_sels (single_root_fuel doc) doc (o_loc o) (o_sels o) with
+        | Some es' => Some (es ++ es')
+        | None => None
+        end
+    | _, _ => acc
+    end) (operations doc) (Some []).
 
 Definition fragment_name_errors (frs : list fragment) : list verror :=
   uniq_errors "fragment-name-uniqueness" fr_name fr_loc None frs.
